@@ -99,7 +99,12 @@ where {
     where
         F: FnOnce(&str) -> Result<Vec<Signature>>,
     {
-        let signature_text = normalize_lines(text, LineBreak::Crlf);
+        let csf_encoded_text = dash_escape(text);
+
+        // Hand the signer exactly the form of the text that `verify` checks against:
+        // trailing whitespace of each line is not part of the signed data.
+        let signed_text = dash_unescape_and_trim(&csf_encoded_text);
+        let signature_text = normalize_lines(&signed_text, LineBreak::Crlf);
 
         let raw_signatures = signer(&signature_text[..])?;
         let mut hashes = HashSet::new();
@@ -114,7 +119,7 @@ where {
         }
 
         Ok(Self {
-            csf_encoded_text: dash_escape(text),
+            csf_encoded_text,
             hashes: hashes.into_iter().collect(),
             signatures,
         })
